@@ -313,4 +313,16 @@ class InjectedExit(SystemExit):
     """sys.exit() called inside user code: a BaseException that is neither an Exception nor a KeyboardInterrupt."""
 
 
-FLAVOURS = {None: InjectedFault, "error": InjectedFault, "stop": InjectedStop, "exit": InjectedExit}
+class InjectedValueError(ValueError):
+    """A user-defined subclass of a built-in exception the library itself catches or raises somewhere (invalid parameters)."""
+
+
+class InjectedLookupError(KeyError):
+    pass
+
+
+class InjectedOSError(OSError):
+    pass
+
+
+FLAVOURS = {None: InjectedFault, "error": InjectedFault, "stop": InjectedStop, "exit": InjectedExit, "value": InjectedValueError, "lookup": InjectedLookupError, "os": InjectedOSError}
